@@ -61,7 +61,7 @@ func c18Epochs(ec epochCase) (string, string, int) {
 
 func c18Keys(spec WorldSpec) (string, string) {
 	e := NewEngine(spec)
-	want := append([]string{}, allFunctionNames...)
+	want := append([]string{}, protocolFunctionNames...)
 	sort.Strings(want)
 	for i, sh := range e.W.Shards {
 		keys := sh.Container.Keys()
@@ -85,7 +85,7 @@ func c18Keys(spec WorldSpec) (string, string) {
 // c18Script exercises every one of the 23 names once with the engine's exact-effect oracle: a function bound to the
 // wrong behaviour shows the wrong diff (or fails where it must succeed).
 func c18Script(spec WorldSpec) []Op {
-	sys := vmcommon.ESDTSCAddress
+	sys := refESDTSC
 	u0, u1 := []byte(spec.Users[0]), []byte(spec.Users[1])
 	far := []byte(spec.Users[len(spec.Users)-2]) // last shard's second user (same shard as u0 when there is one shard)
 	if bytes.Equal(far, spec.Contracts[0].Owner) {
@@ -126,9 +126,9 @@ func c18Script(spec WorldSpec) []Op {
 		call(sh(u1), vmcommon.BuiltInFunctionESDTTransfer, u1, u0, F, []byte{1}), // must work again
 		system(vmcommon.BuiltInFunctionESDTFreeze, u1, F),
 		system(vmcommon.BuiltInFunctionESDTWipe, u1, F),
-		call(sh(u0), vmcommon.BuiltInFunctionESDTPause, sys, vmcommon.SystemAccountAddress, F),
+		call(sh(u0), vmcommon.BuiltInFunctionESDTPause, sys, refSystemAccount, F),
 		call(sh(u0), vmcommon.BuiltInFunctionESDTTransfer, u0, u1, F, []byte{1}), // must fail: paused
-		call(sh(u0), vmcommon.BuiltInFunctionESDTUnPause, sys, vmcommon.SystemAccountAddress, F),
+		call(sh(u0), vmcommon.BuiltInFunctionESDTUnPause, sys, refSystemAccount, F),
 		call(sh(u0), vmcommon.BuiltInFunctionESDTTransfer, u0, u1, F, []byte{1}),
 		system(vmcommon.BuiltInFunctionUnSetESDTRole, u0, F, []byte(vmcommon.ESDTRoleLocalMint)),
 		self(vmcommon.BuiltInFunctionESDTLocalMint, u0, F, []byte{7}), // must fail: role gone
